@@ -33,6 +33,19 @@ Definition c04_classes (cf : cfg) (c : cmd) : list bool :=
 Definition c04_tauri_camel := tauri_camel.
 Definition c04_tauri_snake := tauri_snake.
 
+(* project level *)
+Definition c04_fn (name : str) (is_command : bool) (macro : option str) (ps : list (str * cty)) : fn_item :=
+  {| f_cmd := c04_cmd name macro ps; f_is_command := is_command |}.
+Definition c04_commands (f : file) : list cmd := commands_of f.
+Definition c04_cmd_name (c : cmd) : str := c_name c.
+Definition c04_model_in (cf : cfg) (zod : bool) (f : file) (c : cmd) : keyres :=
+  match generate_in cf (if zod then Zod else Plain) f c with
+  | Panic => KPanic
+  | Ok g => match invoke_keys g with Some l => KKeys l | None => KDangling end
+  end.
+Definition c04_project_dom (cf : cfg) (p : project) : bool := cfg_dom cf && project_dom p.
+
 Extraction Language OCaml.
 Extraction "tt_c04.ml" c04_cmd c04_cfg c04_model c04_observe c04_keys_ok c04_optional_ok c04_zod_src_ok
-  c04_modes_ok c04_spec_keys c04_dom c04_classes c04_tauri_camel c04_tauri_snake.
+  c04_modes_ok c04_spec_keys c04_dom c04_classes c04_tauri_camel c04_tauri_snake
+  c04_fn c04_commands c04_cmd_name c04_model_in c04_project_dom.
